@@ -325,6 +325,15 @@ class Rotate(Relation):
                 shape = {'rows': (2, k), 'cols': (k, 2), '3d': (k, 1, 2)}[nd]
                 xs, ys = xs[:2 * k].reshape(shape), ys[:2 * k].reshape(shape)
                 ctx.label('rotate:N-D')
+                # memory layout: C order, Fortran order, or x and y differently
+                lay = ('C', 'F', 'xF', 'T')[int(abs(cx) * 7 + len(pts)) % 4]
+                if lay == 'F':
+                    xs, ys = np.asfortranarray(xs), np.asfortranarray(ys)
+                elif lay == 'xF':
+                    xs = np.asfortranarray(xs)
+                elif lay == 'T':
+                    xs, ys = xs.T.copy().T, ys.T.copy().T
+                ctx.label('layout:' + lay)
             p = PixCoord(xs, ys)
         c = PixCoord(cx, cy)
         al, be = S.angle(sp['alpha']), S.angle(sp['beta'])
